@@ -49,6 +49,42 @@ pub fn c_count_filter<S: Src>(s: &mut S) {
     chk!(s, ok == (n >= min_obs), "CountFilter: accepted iff count >= threshold");
 }
 
+/// Bounded stand-in: CountFilterSet::summarize over <= 2 observations with u8 labels (3 observations are intractable for CBMC).
+pub fn c_count_filter_set_2<S: Src>(s: &mut S) {
+    let n = s.usize();
+    s.assume(n <= 2);
+    let min_obs = s.usize();
+    let probe = s.u8();
+    let e0 = s.u8();
+    let d0 = s.u8();
+    let e1 = s.u8();
+    let d1 = s.u8();
+    let mut items: Vec<(u8, Exts, u8)> = Vec::new();
+    let mut union = 0u8;
+    let mut probe_seen = false;
+    if n >= 1 {
+        items.push((0u8, Exts::new(e0), d0));
+        union |= e0;
+        probe_seen = probe_seen || d0 == probe;
+    }
+    if n >= 2 {
+        items.push((0u8, Exts::new(e1), d1));
+        union |= e1;
+        probe_seen = probe_seen || d1 == probe;
+    }
+    s.cover(n == 2 && d0 == d1);
+    let f: CountFilterSet<u8> = CountFilterSet::new(min_obs);
+    let (ok, exts, data) = f.summarize(items.into_iter());
+    chk!(s, exts.val == union, "CountFilterSet: extensions are the union over the observations");
+    chk!(s, ok == (n >= min_obs), "CountFilterSet: accepted iff #observations >= threshold");
+    chk!(s, data.len() <= n, "CountFilterSet: no more labels than observations");
+    let found = (data.len() >= 1 && data[0] == probe) || (data.len() >= 2 && data[1] == probe);
+    chk!(s, found == probe_seen, "CountFilterSet: label set is exactly the set of observed labels");
+    if data.len() == 2 {
+        chk!(s, data[0] < data[1], "CountFilterSet: labels strictly ascending (sorted, de-duplicated)");
+    }
+}
+
 /// Bounded stand-in: CountFilterSet::summarize over <= 3 observations with u8 labels.
 pub fn c_count_filter_set<S: Src>(s: &mut S) {
     let n = s.usize();
@@ -184,6 +220,7 @@ macro_rules! bucket_suite {
             if path == "f_remove_censored_3" { c_remove_censored_3(s); return true; }
             if path == "f_remove_censored_sharded" { c_remove_censored_sharded(s); return true; }
             if path == "f_count_filter_set" { c_count_filter_set(s); return true; }
+            if path == "f_count_filter_set_2" { c_count_filter_set_2(s); return true; }
             false
         }
     };
@@ -198,3 +235,4 @@ bucket_suite!(
 
 harness!(f_count_filter, c_count_filter, unwind 8);
 harness!(f_count_filter_set, c_count_filter_set, unwind 8);
+harness!(f_count_filter_set_2, c_count_filter_set_2, unwind 6);
